@@ -3,8 +3,8 @@ package props
 import (
 	"bytes"
 	"fmt"
-	"runtime"
 	"path/filepath"
+	"runtime"
 	"runtime/debug"
 	"sort"
 	"strings"
